@@ -120,13 +120,50 @@ class IntEnv:
         self.declare(name, lo, hi)
         return Lin.sym(name)
 
+    def sym_bounds(self, s):
+        """bounds of one symbol, tightened by the relational facts it takes part in"""
+        lo = self.lo.get(s, -INF)
+        hi = self.hi.get(s, INF)
+        if self.forms:
+            import math
+            for key, (flo, fhi) in self.forms.items():
+                ks = None
+                rlo = rhi = 0
+                for t, k in key:
+                    if t == s:
+                        ks = k
+                        continue
+                    tlo, thi = self.lo.get(t, -INF), self.hi.get(t, INF)
+                    if k > 0:
+                        rlo += k * tlo
+                        rhi += k * thi
+                    else:
+                        rlo += k * thi
+                        rhi += k * tlo
+                if ks is None:
+                    continue
+                # ks*s + rest in [flo, fhi]  =>  ks*s in [flo - rhi, fhi - rlo]
+                a, b = flo - rhi, fhi - rlo
+                if a != a or b != b:
+                    continue
+                if ks > 0:
+                    if a > -INF:
+                        lo = max(lo, math.ceil(a / ks))
+                    if b < INF:
+                        hi = min(hi, math.floor(b / ks))
+                else:
+                    if b < INF:
+                        lo = max(lo, math.ceil(b / ks))
+                    if a > -INF:
+                        hi = min(hi, math.floor(a / ks))
+        return lo, hi
+
     def bounds(self, x):
         if not isinstance(x, Lin):
             return (x, x)
         lo = hi = x.c
         for s, k in x.terms.items():
-            slo = self.lo.get(s, -INF)
-            shi = self.hi.get(s, INF)
+            slo, shi = self.sym_bounds(s)
             if k > 0:
                 lo += k * slo
                 hi += k * shi
